@@ -113,7 +113,8 @@ type FuncContract struct {
 	Modifies  []string
 	HasMod    bool
 	LoopInv   map[int][]Clause
-	Uses      []UseHint
+	LoopExit  map[int][]Clause // loop N exit EXPR
+	Uses     []UseHint
 	Inline    bool
 	Assumed   bool
 	Overflow  bool
@@ -469,6 +470,23 @@ func loadContractFile(path string, prefixed bool, pkgPath string) (*ContractSet,
 				}
 			case "loop":
 				f := strings.Fields(rc.text)
+				if len(f) >= 3 && f[1] == "exit" {
+					// loop N exit EXPR: holds whenever the loop is left (guard false or break)
+					n, err := strconv.Atoi(f[0])
+					if err != nil {
+						return nil, fmt.Errorf("%s: loop ordinal: %v", where, err)
+					}
+					src := strings.TrimSpace(rc.text[strings.Index(rc.text, "exit")+len("exit"):])
+					e, err := parseSpec(src)
+					if err != nil {
+						return nil, fmt.Errorf("%s: %v", where, err)
+					}
+					if cur.LoopExit == nil {
+						cur.LoopExit = map[int][]Clause{}
+					}
+					cur.LoopExit[n] = append(cur.LoopExit[n], Clause{E: e, Src: src, Line: rc.line})
+					break
+				}
 				if len(f) < 3 || f[1] != "invariant" {
 					return nil, fmt.Errorf("%s: loop N invariant EXPR", where)
 				}
